@@ -193,20 +193,40 @@ def check_poly_division(facts, rep):
     from symex import SymEx, show
     K = 'yui::types::poly::poly::PolyBase::<types::poly::var::Var<X, usize>, R>::div_rem'
     b = facts.bodies.get(K)
-    c = facts.bodies.get(K + '::{closure#0}')
-    if not (b and c):
+    if b is None:
         rep.indet('E3.P1: Poly::div_rem not found')
         return
     rep.saw(b)
+    # the division step: a local closure, or a private function the driver calls with (remainder, divisor)
+    c = facts.bodies.get(K + '::{closure#0}')
+    shift = 0
+    step_call = '{closure#0}(closure<{closure#0}>, (clone(arg1), arg2))'
+    if c is None:
+        cands = set()
+        for p in SymEx(b, havoc_loops=True, max_paths=2000).run():
+            if p.end == 'backedge':
+                for e in p.calls():
+                    cb = facts.bodies.get(e.call.callee or '') if e.call is not None else None
+                    if cb is not None and cb.kind in ('Fn', 'AssocFn') and cb.d.get('vis', 'pub') != 'pub' and cb.arg_count == 2 and cb.defp.startswith('yui::types::poly::poly::'):
+                        cands.add(cb.defp)
+        if len(cands) != 1:
+            rep.indet('E3.P1: division step of Poly::div_rem not found (candidates %s)' % sorted(cands))
+            return
+        c = facts.bodies[next(iter(cands))]
+        shift = 1
+        step_call = '%s(clone(arg1), arg2)' % c.defp.split('::')[-1]
     rep.saw(c)
 
     def dk(t):
         return re.sub(r'#\d+\.\d+', '', show(t, -1000)).replace('&', '')
+    def renum(x):
+        # a private function takes (f, g) as arg1, arg2; the closure form takes them as arg2, arg3
+        return re.sub(r'arg(\d)', lambda m: 'arg%d' % (int(m.group(1)) + shift), x) if shift else x
     steps = set()
     for p in SymEx(c).run():
         if p.end == 'return':
-            conds = tuple((dk(e.term), e.value != 0) for e in p.branches() if 'Overflow' not in dk(e.term))
-            steps.add((dk(p.ret), conds))
+            conds = tuple((renum(dk(e.term)), e.value != 0) for e in p.branches() if 'Overflow' not in dk(e.term))
+            steps.add((renum(dk(p.ret)), conds))
     Q = 'from((from(SubWithOverflow(deg(lead_term(arg2).0), deg(lead_term(arg3).0)).0), div(lead_term(arg2).1, lead_term(arg3).1)))'
     want = {('(zero(), arg2)', (('Lt(lead_deg(arg2), lead_deg(arg3))', True),)),
             ('(%s, sub(arg2, mul(%s, arg3)))' % (Q, Q), (('Lt(lead_deg(arg2), lead_deg(arg3))', False),))}
@@ -225,12 +245,12 @@ def check_poly_division(facts, rep):
     for p in SymEx(b, max_paths=2000).run():
         if p.end != 'return':
             continue
-        n_iter = sum(1 for e in p.calls() if e.name.endswith('{closure#0}'))
+        n_iter = sum(1 for e in p.calls() if e.name.endswith('{closure#0}') or e.name == c.defp or (e.call is not None and (e.call.callee or '') == c.defp))
         shapes.add((n_iter, dk(p.ret)))
         for e in p.calls():
             if e.name.split('::')[-1] == 'into_iter' and len(e.args) == 1:
                 rng.add(dk(e.args[0]))
-    C = '{closure#0}(closure<{closure#0}>, (clone(arg1), arg2))'
+    C = step_call
     w0 = (0, '(zero(), clone(arg1))')
     w1 = (1, '(add(zero(), %s.0), %s.1)' % (C, C))
     inst = 'Poly::div_rem driver|q += step quotient, r = step remainder, deg f - deg g + 1 times'
